@@ -288,13 +288,13 @@ fn c02_cmp_twin_must_fail() {
 // C06 / C01: destination id allocator
 // ---------------------------------------------------------------------------------
 
-//@ id=C06 tier=quick cap=600
+//@ id=C01 tier=quick cap=600
 //@ fn: IdAllocator::alloc, IdAllocator::dealloc
 //@ bound: ANY bitmap of 0..=2 words (no trailing zero word) x shard index 0..=255; alloc then dealloc; unwind 5
-//@ desc: alloc returns the lowest free local id (never one in use), marks exactly that bit, keeps the shard bits; dealloc clears exactly that bit; ids of live destinations are therefore unique
+//@ desc: alloc returns the lowest free local id (never one in use), marks exactly that bit, keeps the shard bits; dealloc clears exactly that bit; ids of live destinations are therefore unique, and a freed id IS handed out again at once (the premise of the PendingTx re-use clause)
 #[kani::proof]
 #[kani::unwind(5)]
-fn c06_id_alloc_step() {
+fn c01_id_alloc_step() {
     let w0: u64 = kani::any();
     let w1: u64 = kani::any();
     let n: usize = kani::any();
